@@ -179,13 +179,56 @@ def fields(f, shape, four, w, lem, mor, edg, cedg, wpos, one):
     return check_writer(FMTS[f], spec, 7, o)
 
 
-def decor(f, gf, gft, si, mh, bm, bn, er, ex, et, hx, ht, sx, st, blk):
-    """label decorations appear exactly on the nodes they apply to: (VROOT (X t1 t2) t3)"""
+def pair(m, n, f, four, **kw):
+    """two trees written one after the other with the same writer (the second smaller than the first): the output holds
+    exactly the two sentences -- nothing of the first tree may leak into the second"""
+    stubs.install()
+    ip, lp = e1_get(kw, m, n)
+    a = spec_e1(m, n, ip, lp)
+    b = ("N", "VROOT", "--", (("T", "z", "Q", "--", "--", "--", 1),))
+    fmt = FMTS[f]
+    if fmt == "brackets" and spec_gapdeg(a) > 0:
+        return "~"
+    o = {'export_four': True} if (four and fmt == "export") else {}
+    out = stubs.Sink()
+    try:
+        getattr(treeoutput, fmt + "_begin")(out, **dict(o))
+        getattr(treeoutput, fmt)(build_tree(a, sid=3), out, **dict(o))
+        getattr(treeoutput, fmt)(build_tree(b, sid=4), out, **dict(o))
+        getattr(treeoutput, fmt + "_end")(out, **dict(o))
+    except Exception as e:      # noqa
+        return "%s writer failed on the second tree: %s: %s" % (fmt, type(e).__name__, e)
+    text = out.text()
+    if fmt == "terminals":
+        got = dec_terminals(text)
+        want = [[(t[1], None) for t in spec_tokens(s)] for s in (a, b)]
+        return "" if got == want else "terminals output %r decodes to %r, expected %r" % (text, got, want)
+    from harness.formats import decode_file
+    sents, prob = decode_file(fmt, text, v4=bool(o))
+    if prob:
+        return "%s output of two trees does not decode: %s -- %r" % (fmt, prob, text)
+    exp = [_expect(s, fmt, o, {}) for s in (a, b)]
+    got = [g for _, g in sents]
+    if fmt == "tigerxml":
+        got = [("N", g[1], None, g[3]) for g in got]
+    if got != exp:
+        return "%s output of two trees decodes to %s, expected %s" % (fmt, [show(g) for g in got], [show(e) for e in exp])
+    if fmt in ("export", "tigerxml") and [s for s, _ in sents] != [3, 4]:
+        return "sentence ids %r, expected [3, 4]" % ([s for s, _ in sents],)
+    return ""
+
+
+ROOTLABELS = ["VROOT", "TOP"]
+XLABELS = ["NP", "VROOT"]
+
+
+def decor(f, gf, gft, si, mh, bm, bn, er, ex, et, hx, ht, sx, st, blk, rl=0, xl=0):
+    """label decorations appear exactly on the nodes they apply to: (ROOT (X t1 t2) t3)"""
     t1 = ("T", "a", "P1", EDGES[et], "--", "--", 1)
     t2 = ("T", "b", "P2", "--", "--", "--", 2)
     t3 = ("T", "c", "P3", "HD", "--", "--", 3)
-    x = ("N", "NP", EDGES[ex], (t1, t2))
-    spec = ("N", "VROOT", "--", (x, t3))
+    x = ("N", XLABELS[xl], EDGES[ex], (t1, t2))
+    spec = ("N", ROOTLABELS[rl], "--", (x, t3))
     flags = {id(x): (hx, sx, blk), id(t1): (ht, st, blk + 1), id(t2): (not ht, False, 1), id(t3): (False, False, 1),
              id(spec): (False, False, 1)}
     o = {}
@@ -241,9 +284,15 @@ def conds(tier):
     cs.append(Cond("decor", "harness.c02:decor",
                    [P("f", "int", 0, 3), P("gf", "bool"), P("gft", "bool"), P("si", "int", 0, 3), P("mh", "bool"),
                     P("bm", "bool"), P("bn", "bool"), P("er", "bool"), P("ex", "int", 0, 4), P("et", "int", 0, 4),
-                    P("hx", "bool"), P("ht", "bool"), P("sx", "bool"), P("st", "bool"), P("blk", "int", 1, 3)],
-                   pre=["(f != 0 or not er)"] + (["si < 2 and et == ex and blk == 1 and hx == ht and sx == st"] if q else ["hx == ht and (bn or blk == 1) and si < 2 and ex > 0 and et > 0"]),
+                    P("hx", "bool"), P("ht", "bool"), P("sx", "bool"), P("st", "bool"), P("blk", "int", 1, 3),
+                    P("rl", "int", 0, 2), P("xl", "int", 0, 2)],
+                   pre=["(f != 0 or not er)", "rl == xl or er"] + (["si < 2 and et == ex and blk == 1 and hx == ht and sx == st"] if q else ["hx == ht and (bn or blk == 1) and si < 2 and ex > 0 and et > 0"]),
                    shard=["f", "gf", "gft", "mh"] + ([] if q else ["bm", "bn"]), timeout=600 if q else 2400, functions=FUNCS))
+    for (m, n) in ([(2, 2), (3, 3)] if q else [(2, 2), (3, 3), (3, 4)]):
+        cs.append(Cond("pair-m%d-n%d" % (m, n), "harness.c02:pair", e1_params(m, n) + [P("f", "int", 0, 5), P("four", "bool")],
+                       fixed={"m": m, "n": n}, pre=[e1_wf_expr(m, n), "f == 0 or not four"], shard=["f"],
+                       timeout=400 if q else 2400, functions=FUNCS,
+                       note="two trees written in sequence by the same writer"))
     cs.append(Cond("tabs", "harness.c02:tabs", [P("length", "int", None, None)], timeout=60,
                    functions=["treeoutput.export_tabs"], note="unbounded integer length"))
     return cs
